@@ -61,7 +61,7 @@ CLAIMS = {
  'C17': dict(technique='TLC model checking of PolynomialModel (transcribed compare/add/mul explored as a state machine: homomorphism, WellFormed preservation, exact zero tests) and of the AdditionChains loop machine (termination, valid prefix-closed chains, power_supply exponents) + TLC trace validation of every explored transition, of random walks on the real Polynomial/RationalPolynomial objects and of the chains the real code computes',
              text='The transcription of kingdon\'s polynomial algorithms is explored by TLC over reachable pairs of representations; invariants: operators are homomorphisms for the denotation in the fraction field, preserve the representation invariant, zero tests exact. Every state of the exploration is replayed into the real classes and, with random walks (pow of both signs, inv, /, numbers), validated by TLC on denotations (result, bool, == 0, ==, tosympy, operands unchanged, zero test of the difference with the canonical form).',
              note=TB + 'Variables a < a1 < b (< c < x12), coefficients ints and dyadic floats; operands of one class; representation equality is model drift only.', ref='6 C17'),
- 'C18': dict(technique='TLC trace validation against MatrixModel: homomorphism on all basis-blade pairs of the recorded matrices, first column, linearity, frommatrix; expr_as_matrix as polynomial identities A.x = y and y = Sem(expression)',
+ 'C18': dict(technique='TLC model checking of MatrixModel (transcribed Kronecker construction of matrix_rep: faithful for every signature ordering d<=3/4; control variant refuted) + TLC trace validation of the recorded matrices (homomorphism on all basis-blade pairs, first column, linearity, frommatrix) and of expr_as_matrix as polynomial identities A.x = y, y = Sem(expression)',
              text='For every configuration the matrices of all basis blades are recorded; TLC multiplies them (sparse) and compares with sign x matrix of the product blade for all pairs, checks identity, first column = canonical coefficient vector, linearity and frommatrix on random multivectors; expr_as_matrix results for 13 linear expressions with symbolic / numeric / array-valued inputs and res_like are checked as polynomial identities. Known findings F6b (custom bases), F6c (d=0).',
              note=TB + 'All signature orderings d<=3, sampled d=4,5; several algebras per process.', ref='6 C18'),
  'C19': dict(technique='TLC trace validation: exact clauses on generic coefficients (outer series, integer powers); certificates verified by TLC for sqrt / x**0.5 / norm / normalized (r*r = x on nearest fractions) and exp (integer evaluation of the truncated series with remainder bound)',
